@@ -168,7 +168,10 @@ def run (kv : KV) : String :=
   let v := Spec.judge e unix obs wire eof
   let okResults := results.all (· == "ok")
   let flag (k : String) : Bool := !has kv k || get kv k == "1"
-  let aheadOk := !has kv "i_expect_received" || get kv "received" == get kv "i_expect_received"
+  -- C11, second sentence: once a request with a streamed body has been answered or dropped its
+  -- successors are delivered (`i_successors` = how many requests the application must get in all)
+  let aheadOk := (!has kv "i_expect_received" || get kv "received" == get kv "i_expect_received")
+    && (!has kv "i_successors" || toString obs.length == get kv "i_successors")
   let extra := ",same:" ++ b01 (flag "same") ++ ",prefix:" ++ b01 (flag "prefix" && flag "complete") ++ ",fresh:" ++ b01 (!has kv "fresh" || get kv "fresh" != "0")
     ++ ",nopanic:" ++ b01 (!has kv "panicked" || get kv "panicked" == "0") ++ ",ahead:" ++ b01 aheadOk
     ++ ",noabort:" ++ b01 ((!has kv "aborted" || get kv "aborted" == "0") && (!has kv "abort" || get kv "abort" == "0"))
